@@ -850,6 +850,52 @@ Definition rc_pages_of (file : list N) (len : N) (pc : option (rc_og * N)) (t : 
       end
   end.
 
+(* the guard and the attempt at the end of the scan: the LAST startxref seen lies behind the LAST object found *)
+Definition rc_late_startxref (maxid : Z) (file : list N) (len : N) : option rc_xres :=
+  let evs := rc_scan_events file in
+  match rev' (rc_startxref_pos evs), rev' (rc_found maxid evs) with
+  | p :: _, (_, _, a) :: _ =>
+      if a <? p then
+        let v := rc_atoi (rc_t_raw (rc_read_token 0 (if len <=? p then [] else rc_drop p file))) in
+        if (0 <? v)%Z
+        then Some (rc_read_xref (S (length file)) maxid file len (Z.to_N v) [] (mkX [] [] false []) None)
+        else None
+      else None
+  | _, _ => None
+  end.
+
+(* reconstruct_xref entered from parse() (startxref missing or the xref unreadable), then the rest of parse() *)
+Definition rc_view_recon (maxid : Z) (file : list N) (len : N) (sx : Z) (deleted : list Z)
+                         (trailer : option (list (list N * pobj))) (unsupported : bool) : rc_result :=
+      let r := rc_reconstruct maxid file len deleted trailer in
+      if r_fatal r then mkRes true true true (r_table r) (r_root r) unsupported else
+      let st := mkRS (r_table r) true true false (r_root r) in
+      (* read_xrefStream: the startxref offset was no xref table; if an object header stands there the object is
+         parsed and cached under the id of that header (the table is still empty) *)
+      let pc := if (0 <? sx)%Z && (Z.to_N sx <? len)
+                then match rc_object_start (rc_drop (Z.to_N sx) file) with
+                     | Some og => Some (og, Z.to_N sx)
+                     | None => None
+                     end
+                else None in
+      let fin := rc_after_parse true file len pc st st in
+      (* "unable to find any pages while recovering damaged file" *)
+      let no_pages :=
+        match rc_pages_of file len pc (r_table r) (r_root r) with
+        | Some pg =>
+            (* getAllPages: "root of pages tree has no /Kids array" *)
+            negb (match (match rc_pc_hit pc pg with Some o => Some o | None => rc_lookup pg (r_table r) end) with
+                  | Some off => match rc_dict_at file len off with
+                                | Some d => match dict_get d rc_n_Kids with Some (SpArr _) => true | _ => false end
+                                | None => true
+                                end
+                  | None => true
+                  end)
+            || negb (rc_has_page (S (length (r_table r))) file len pc (r_table r) pg)
+        | None => false
+        end in
+      mkRes (rs_fatal fin || no_pages) true true (rs_table fin) (rs_root fin) unsupported.
+
 Definition rc_view (recover : bool) (file : list N) : rc_result :=
   let len := rc_len file in
   let maxid := Z.min (rc_int_max - 1) (Z.of_N (len / 3)) in
@@ -875,34 +921,50 @@ Definition rc_view (recover : bool) (file : list N) : rc_result :=
     mkRes (rs_fatal fin) (rs_warned fin) (rs_recon fin) (rs_table fin) (rs_root fin) (xr_unsupported xr)
   else
     if recover then
-      let r := rc_reconstruct maxid file len (x_deleted (xr_state xr)) (xr_trailer xr) in
-      if r_fatal r then mkRes true true true (r_table r) (r_root r) (xr_unsupported xr) else
-      let st := mkRS (r_table r) true true false (r_root r) in
-      (* read_xrefStream: the startxref offset was no xref table; if an object header stands there the object is
-         parsed and cached under the id of that header (the table is still empty) *)
-      let pc := if (0 <? sx)%Z && (Z.to_N sx <? len)
-                then match rc_object_start (rc_drop (Z.to_N sx) file) with
-                     | Some og => Some (og, Z.to_N sx)
-                     | None => None
-                     end
-                else None in
-      let fin := rc_after_parse recover file len pc st st in
-      (* "unable to find any pages while recovering damaged file" *)
-      let no_pages :=
-        match rc_pages_of file len pc (r_table r) (r_root r) with
-        | Some pg =>
-            (* getAllPages: "root of pages tree has no /Kids array" *)
-            negb (match (match rc_pc_hit pc pg with Some o => Some o | None => rc_lookup pg (r_table r) end) with
-                  | Some off => match rc_dict_at file len off with
-                                | Some d => match dict_get d rc_n_Kids with Some (SpArr _) => true | _ => false end
-                                | None => true
-                                end
-                  | None => true
-                  end)
-            || negb (rc_has_page (S (length (r_table r))) file len pc (r_table r) pg)
+      (* inside reconstruct_xref: "startxref was more than 1024 bytes before end of file" *)
+      let late := if (sx <=? 0)%Z then rc_late_startxref maxid file len else None in
+      let late_ok :=
+        match late with
+        | Some axr =>
+            xr_ok axr &&
+            match xr_trailer axr with
+            | Some d =>
+                let t := rc_highest_gen (x_table (xr_state axr)) in
+                let dict_of og := match rc_lookup og t with
+                                  | Some off => if negb (off =? 0) && rc_header_ok file len og off then rc_dict_at file len off else None
+                                  | None => None
+                                  end in
+                match rc_root_of d with
+                | Some root =>
+                    match dict_of root with
+                    | Some rd => match dict_get rd rc_n_Pages with
+                                 | Some (SpRef n g) => match dict_of (Z.of_N n, Z.of_N g) with Some _ => true | None => false end
+                                 | Some (SpDict _) => true
+                                 | _ => false
+                                 end
+                    | None => false
+                    end
+                | None => false
+                end
+            | None => false
+            end
         | None => false
         end in
-      mkRes (rs_fatal fin || no_pages) true true (rs_table fin) (rs_root fin) (xr_unsupported xr)
+      match late with
+      | Some axr =>
+          if late_ok then
+            (* the older table is taken; m->reconstructed_xref is reset, so a later mismatch reconstructs *)
+            let st := xr_state axr in
+            let t := rc_highest_gen (x_table st) in
+            let d := match xr_trailer axr with Some d => d | None => [] end in
+            let r := rc_reconstruct maxid file len [] (Some d) in
+            let recon_of := mkRS (r_table r) true true (r_fatal r) (r_root r) in
+            let fin := rc_after_parse recover file len None recon_of (mkRS t false true false (rc_root_of d)) in
+            mkRes (rs_fatal fin) true true (rs_table fin) (rs_root fin) (xr_unsupported axr)
+          else
+            rc_view_recon maxid file len sx (x_deleted (xr_state axr)) (xr_trailer axr) (xr_unsupported axr)
+      | None => rc_view_recon maxid file len sx (x_deleted (xr_state xr)) (xr_trailer xr) (xr_unsupported xr)
+      end
     else mkRes true false false [] None (xr_unsupported xr).
 
 (* QPDFJob: an exception ends the run with status 2, any warning makes it 3 *)
